@@ -141,6 +141,7 @@ def run(chk, replay=None):
     chk.log('Gen: %d cases' % len(cases))
     tables = RATE_TABLES[:2] if quick else RATE_TABLES
     nbad = 0
+    pick_dt = random.Random(chk.seed * 7919 + 5)
     for ci, case in enumerate(cases):
         w = case['w']
         n = sum(map(sum, w))
@@ -154,8 +155,8 @@ def run(chk, replay=None):
                          ('multi-event-bin' if any(x > 1 for r in w for x in r) else ('empty' if n == 0 else 'simple')))
                 chk.violation('gen:%s:%s:%s' % (case['kind'], bad['why'], shape),
                               {'case': case, 'table': {str(k): v for k, v in table.items()}, 'mismatch': bad})
-        if ci % 4 == chk.seed % 4:
-            dt = ['float32', 'int64', 'int32', 'uint16'][(ci // 4) % 4]
+        if pick_dt.random() < 0.25:
+            dt = pick_dt.choice(['float32', 'int64', 'int32', 'uint16'])
             bad = check_case(case, INT_TABLE, dt)
             if bad:
                 nbad += 1
